@@ -119,7 +119,7 @@ fn set(h: &mut H, name: &str, value: &str) {
 /// apply mutation `m` (selector `s`) to the message; returns its label
 fn mutate(m: u8, s: u16, start: &mut String, h: &mut H, body: &mut Vec<u8>, raw_tail: &mut Vec<u8>) -> String {
     let pick = |list: &[&str]| list[pick_idx(s, list.len())].to_string();
-    match m % 24 {
+    match m % 27 {
         0 => {
             set(h, "Content-Length", &pick(CLENS));
             "content-length".into()
@@ -245,9 +245,39 @@ fn mutate(m: u8, s: u16, start: &mut String, h: &mut H, body: &mut Vec<u8>, raw_
             set(h, "Require", &pick(&["100rel", "timer", ",", "", "x"]));
             "option-tags".into()
         }
-        _ => {
+        23 => {
             body.extend_from_slice(&vec![b'b'; (s % 300) as usize]);
             "body-length-mismatch".into()
+        }
+        26 => {
+            // the message claims the top-Via branch of the transaction that set up the call (still alive for 64*T1
+            // after its 2xx), with a CSeq method and a request-line method that agree with it or not
+            set(h, "Via", "SIP/2.0/UDP 192.0.2.9:5060;branch=z9hG4bKsetupcall");
+            let cseq_num = if s % 3 == 0 { "2" } else { "1" };
+            match (s / 3) % 4 {
+                0 => {}
+                1 => set(h, "CSeq", &format!("{cseq_num} INVITE")),
+                2 => set(h, "CSeq", &format!("{cseq_num} ACK")),
+                _ => set(h, "CSeq", &format!("{cseq_num} {}", ["OPTIONS", "BYE", "CANCEL", "PRACK", "FOO"][((s / 12) % 5) as usize])),
+            }
+            if (s / 60) % 2 == 1 && !start.starts_with("SIP/") {
+                let method = ["OPTIONS", "BYE", "FOO", "ACK", "CANCEL", "PRACK", "INVITE", "UPDATE"][((s / 120) % 8) as usize];
+                if let Some(rest) = start.splitn(2, ' ').nth(1) {
+                    *start = format!("{method} {rest}");
+                }
+            }
+            "branch-of-live-transaction".into()
+        }
+        _ => {
+            // a long malformed value of a header the receive path decodes, with one multi-byte UTF-8 character at
+            // any byte offset 0..150 (error paths that cut, quote or index into the offending text)
+            let filler = (s % 150) as usize;
+            let ch = ['\u{e9}', '\u{20ac}', '\u{1f600}', '\u{a0}'][((s / 150) % 4) as usize];
+            let which = ["CSeq", "From", "To", "Call-ID", "Via", "Contact", "Max-Forwards", "Expires", "Session-Expires", "Content-Type", "RAck", "Supported"][((s / 600) % 12) as usize];
+            let lead = if m % 27 == 25 { "" } else { match which { "CSeq" => "7 ", "From" | "To" | "Contact" => "<sip:a@b>;tag=", "Via" => "SIP/2.0/UDP 192.0.2.9;branch=", _ => "" } };
+            let value = format!("{lead}{}{ch} OPTIONS;x=\"{ch}", "q".repeat(filler));
+            set(h, which, &value);
+            "long-non-ascii-malformed-value".into()
         }
     }
 }
@@ -492,6 +522,8 @@ pub fn check(case: &Case, out: &mut CaseOut) {
             "head-terminator" => "head-terminator",
             "option-tags" => "option-tags",
             "body-length-mismatch" => "body-length-mismatch",
+            "long-non-ascii-malformed-value" => "long-non-ascii-malformed-value",
+            "branch-of-live-transaction" => "branch-of-live-transaction",
             "lf-only" => "lf-only",
             "leading-crlf" => "leading-crlf",
             "truncated" => "truncated",
